@@ -9,28 +9,47 @@ theorem Stmt.reach_pos (s : Stmt) : s.reach s.pos = true := by
   | ifS p t c a => cases a <;> simp [Stmt.reach, Stmt.pos]
   | _ => simp [Stmt.reach, Stmt.pos]
 
+theorem EvalKids.n {ks : Kids} (h : EvalKids ks .normal) : ks.compl.n = true := h.sound
+theorem EvalKid.n {k : Kid} (h : EvalKid k .normal) : k.compl.n = true := h.sound
+theorem EvalTest.n {tt : Bool} {t : Kids} (h : EvalTest tt t .normal) : (testCompl tt t).n = true := h.sound
+
 mutual
 theorem Reaches.sound : ∀ {s : Stmt} {p : Nat}, Reaches s p → s.reach p = true
   | _, _, .self s => s.reach_pos
+  | _, _, .simple_kids h => by simp [Stmt.reach, h.sound]
   | _, _, .block h => by simp [Stmt.reach, h.sound]
-  | .ifS _ _ _ alt, _, .if_then _ h => by cases alt <;> simp [Stmt.reach, h.sound]
-  | _, _, .if_else _ h => by simp [Stmt.reach, h.sound]
-  | _, _, .while_body h => by simp [Stmt.reach, h.sound]
+  | .ifS _ _ _ alt, _, .if_test h => by cases alt <;> simp [Stmt.reach, h.sound]
+  | .ifS _ _ _ alt, _, .if_then ht h => by cases alt <;> simp [Stmt.reach, ht.n, h.sound]
+  | _, _, .if_else ht h => by simp [Stmt.reach, ht.n, h.sound]
+  | _, _, .while_test h => by simp [Stmt.reach, h.sound]
+  | _, _, .while_body ht h => by simp [Stmt.reach, ht.n, h.sound]
   | _, _, .do_body h => by simp [Stmt.reach, h.sound]
-  | _, _, .for_body h => by simp [Stmt.reach, h.sound]
-  | _, _, .forIn_body h => by simp [Stmt.reach, h.sound]
-  | _, _, .switch h => by simp [Stmt.reach, h.sound]
+  | _, _, .do_test (o := o) hb hg h => by
+    simp [Stmt.reach, (goesRoundAny_iff _).mpr ⟨o, hb.sound, hg⟩, h.sound]
+  | _, _, .for_init h => by simp [Stmt.reach, h.sound]
+  | _, _, .for_test hi h => by simp [Stmt.reach, hi.n, h.sound]
+  | _, _, .for_body hi ht h => by simp [Stmt.reach, hi.n, ht.n, h.sound]
+  | _, _, .for_update (o := o) hi ht hb hg h => by
+    simp [Stmt.reach, hi.n, ht.n, (goesRoundAny_iff _).mpr ⟨o, hb.sound, hg⟩, h.sound]
+  | _, _, .forIn_right h => by simp [Stmt.reach, h.sound]
+  | _, _, .forIn_left hr h => by simp [Stmt.reach, hr.n, h.sound]
+  | _, _, .forIn_body hr hl h => by simp [Stmt.reach, hr.n, hl.n, h.sound]
+  | _, _, .switch_disc h => by simp [Stmt.reach, h.sound]
+  | _, _, .switch hd h => by simp [Stmt.reach, hd.n, h.sound]
   | _, _, .try_block h => by simp [Stmt.reach, h.sound]
   | _, _, .try_handler hb h => by
     simp [Stmt.reach, show (Stmts.compl _).t = true from hb.sound, h.sound]
   | _, _, .try_finalizer (o := o) hb h => by
     simp [Stmt.reach, (Compl.any_iff _).mpr ⟨o, hb.sound⟩, h.sound]
   | _, _, .labeled h => by simp [Stmt.reach, h.sound]
+  | _, _, .ret_arg h => by simp [Stmt.reach, h.sound]
+  | _, _, .throw_arg h => by simp [Stmt.reach, h.sound]
 theorem ReachesList.sound : ∀ {l : Stmts} {p : Nat}, ReachesList l p → l.reach p = true
   | _, _, .head h => by simp [Stmts.reach, h.sound]
   | _, _, .tail hs h => by simp [Stmts.reach, show (Stmt.compl [] _).n = true from hs.sound, h.sound]
 theorem ReachesCases.sound : ∀ {cs : Cases} {p : Nat}, ReachesCases cs p → cs.reach p = true
   | _, _, .clause => by simp [Cases.reach]
+  | _, _, .test h => by simp [Cases.reach, h.sound]
   | _, _, .body h => by simp [Cases.reach, h.sound]
   | _, _, .later h => by simp [Cases.reach, h.sound]
 theorem ReachesCatch.sound : ∀ {ks : Kids} {p : Nat}, ReachesCatch ks p → ks.catchReach p = true
@@ -38,11 +57,20 @@ theorem ReachesCatch.sound : ∀ {ks : Kids} {p : Nat}, ReachesCatch ks p → ks
   | _, _, .body h => by simp [Kids.catchReach, h.sound]
   | .cons k r, _, .param hk h => by
     cases k <;> simp [Kid.isBlock] at hk <;> (simp only [Kids.catchReach]; exact h.sound)
+theorem ReachesKid.sound : ∀ {k : Kid} {p : Nat}, ReachesKid k p → k.flowReach p = true
+  | _, _, .expr h => by simp only [Kid.flowReach]; exact h.sound
+  | _, _, .blockPos => by simp [Kid.flowReach]
+  | _, _, .block h => by simp [Kid.flowReach, h.sound]
+  | _, _, .stmt h => by simp only [Kid.flowReach]; exact h.sound
+theorem ReachesKids.sound : ∀ {ks : Kids} {p : Nat}, ReachesKids ks p → ks.flowReach p = true
+  | _, _, .head h => by simp [Kids.flowReach, h.sound]
+  | _, _, .tail hk h => by simp [Kids.flowReach, hk.n, h.sound]
 end
 
 theorem ReachesItems.sound : ∀ {items : List Item} {p : Nat}, ReachesItems items p → itemsReach items p = true
   | _, _, .here h => by simp [itemsReach, h.sound]
   | _, _, .next hs h => by simp [itemsReach, show (Stmt.compl [] _).n = true from hs.sound, h.sound]
-  | _, _, .skipDecl h => by simp [itemsReach, h.sound]
+  | _, _, .decl h => by simp [itemsReach, h.sound]
+  | _, _, .skipDecl hk h => by simp [itemsReach, hk.n, h.sound]
 
 end DL.CF
